@@ -13,4 +13,17 @@ if [ -z "$DEV_KEEP_REPO" ] || [ ! -d $D/repo ]; then
   /verif/bin/instrument -repo $D/repo -hooks /verif/hooks
 fi
 cd $D/sim && cp go.mod.tmpl go.mod && cat /repo/go.sum go.sum.extra > go.sum
+# Families that do not compile right now (someone else's work in progress) are left out of the
+# dev binary so that they cannot block others; DEV_ONLY="c01 c02" restricts the list explicitly.
+fams=""
+for d in scen/*/; do
+  f=$(basename $d)
+  if [ -n "$DEV_ONLY" ]; then case " $DEV_ONLY " in *" $f "*) ;; *) continue;; esac; fi
+  if go1.26.8 build -tags verif ./scen/$f >/dev/null 2>$D/build-$f.log; then fams="$fams $f"; else echo "dev: leaving out $f (does not compile, see $D/build-$f.log)"; fi
+done
+{
+  echo "package run"; echo; echo "import ("; echo '	"testing"'; echo; echo '	"verifsim/core"'
+  for f in $fams; do echo "	_ \"verifsim/scen/$f\""; done
+  echo ")"; echo; echo "func TestWorker(t *testing.T) { core.WorkerMain(t) }"
+} > run/worker_test.go
 rm -f $D/sim.test; go1.26.8 test -c -tags verif -trimpath -o $D/sim.test ./run
